@@ -410,6 +410,10 @@ func addFileWatch(data *ruleData, rule *FileWatchRule) error {
 func addKeys(data *ruleData, keys []string) error {
 	if len(keys) > 0 {
 		key := strings.Join(keys, string(rune(keySeparator)))
+		if key == "" {
+			// Like -F key=, which the flag parser refuses: an empty key cannot be listed back.
+			return errors.New("key cannot be empty")
+		}
 		if err := addFilter(data, "key", "=", key); err != nil {
 			return fmt.Errorf("failed to add keys [%v]: %w", strings.Join(keys, ","), err)
 		}
